@@ -2388,6 +2388,9 @@ pub fn prop() -> Prop {
     Prop {
         id: "C07",
         parts: vec![
+            // uniformly random bytes of any length for a drawn type; also the replay form of what
+            // the coverage-guided fuzz target finds
+            Part { name: "raw", case: case_raw, quick: 2 * q, thorough: 2 * t },
             p("eth", case_eth),
             p("arp", case_arp),
             p("ipv4", case_ipv4),
@@ -2426,3 +2429,61 @@ pub fn prop() -> Prop {
     }
 }
 
+
+/// Entry for the coverage-guided fuzz target (/verif/fuzz): first byte = view type, the rest
+/// is the byte string handed to the checked constructor and the accessor battery. A
+/// violation is written as an ordinary `seed_mut`-independent tape replay of part `raw`.
+#[allow(dead_code)]
+pub fn fuzz_one(data: &[u8]) {
+    if data.is_empty() {
+        return;
+    }
+    let ts = types();
+    let ti = data[0] as usize % ts.len();
+    let t = &ts[ti];
+    let body = &data[1..data.len().min(2049)];
+    let mut tape: Vec<u64> = vec![ti as u64, body.len() as u64];
+    tape.extend(body.iter().map(|b| *b as u64));
+    vkit::hang::arm_tape(&tape, "C07", "raw", t.name, HANG_KEY, HANG_CPU_MS);
+    let (_, fails) = collect(t, body);
+    vkit::hang::disarm();
+    let open = vkit::runner::open_keys("C07");
+    for f in fails {
+        if open.iter().any(|k| key_matches(k, &f.key)) {
+            continue;
+        }
+        vkit::runner::fuzz_violation("C07", "raw", &tape, &f);
+    }
+}
+
+/// Replay form of a fuzz finding: [type index, length, bytes...].
+fn case_raw(src: &mut Src, ctx: &mut Ctx) -> Result<(), Fail> {
+    let ts = types();
+    let ti = src.usize(0, ts.len() - 1);
+    let t = &ts[ti];
+    let n = src.usize(0, 2048);
+    let mut data = Vec::with_capacity(n);
+    for _ in 0..n {
+        data.push(src.u8());
+    }
+    vkit::hang::arm(src, "C07", "raw", t.name, HANG_KEY, HANG_CPU_MS);
+    let r = evaluate(t, &data, 0, ctx);
+    vkit::hang::disarm();
+    r
+}
+
+/// Seed corpus for the fuzz target: every seed packet behind its type byte.
+#[allow(dead_code)]
+pub fn fuzz_seeds(dir: &str) -> usize {
+    let mut n = 0;
+    for (ti, t) in types().iter().enumerate() {
+        for (si, s) in t.seeds.iter().enumerate() {
+            let mut b = vec![ti as u8];
+            b.extend_from_slice(&s.bytes);
+            if std::fs::write(format!("{}/c07-{}-{:02}", dir, t.name, si), &b).is_ok() {
+                n += 1;
+            }
+        }
+    }
+    n
+}
